@@ -378,8 +378,8 @@ pub const OBSERVERS: usize = 9;
 
 fn grid(quick: bool) -> Vec<(isize, usize, usize)> {
   let years: Vec<isize> = if quick { vec![2, 21, 202, 1582, 1964, 2020, 2021, 2024, 9000] } else { vec![1, 2, 11, 12, 21, 202, 203, 1582, 1904, 1964, 1999, 2000, 2020, 2021, 2023, 2024, 2084, 9000, 9998] };
-  let months: Vec<usize> = if quick { vec![1, 12] } else { vec![1, 2, 6, 11, 12] };
-  let days: Vec<usize> = if quick { vec![1, 6, 26] } else { vec![1, 6, 15, 26, 28] };
+  let months: Vec<usize> = if quick { vec![1, 12] } else { vec![1, 2, 11, 12] };
+  let days: Vec<usize> = if quick { vec![1, 6, 26] } else { vec![1, 6, 26, 28] };
   let mut v = Vec::new();
   for &y in &years {
     for &m in &months {
